@@ -430,6 +430,10 @@ class Run:
             cnt = c.config["experiment"]["event count"]
             scal = ["deform", "bright_avg", "emodulus"] + (
                 [TMP] if self.temp is not None else [])
+            # a conversion to another dtype must not change what later
+            # accesses return
+            c["deform"].__array__(dtype=np.float32)
+            dt_after = getattr(c["deform"].__array__(), "dtype", None)
             sgot = {f: list(c[f][:]) for f in scal}
             smx = c[TMP].max() if self.temp is not None and nv else None
             spar = {f: (list(P[f][:]) if L > 1 else list(P[f]))
@@ -447,6 +451,9 @@ class Run:
                       else z3.BoolVal(int(cnt) == nv),
                       tag + "config event count == len(child)",
                       info={"level": L})
+            eng.prove(z3.BoolVal(dt_after == np.dtype(np.float64)),
+                      tag + "scalar feature keeps its dtype after a typed "
+                      "conversion", info={"level": L, "dtype": str(dt_after)})
             for feat in scal:
                 got = sgot[feat]
                 exp = [spar[feat][i] for i in sel]
@@ -678,6 +685,11 @@ def concrete(p, vals):
                 return
             scal = ["deform", "area_um", "bright_avg", "emodulus"] + (
                 [TMP] if temp is not None else [])
+            np.asarray(c["deform"], dtype=np.float32)
+            if np.asarray(c["deform"]).dtype != np.float64:
+                fails.append(("dtype", "level %d: deform is %s after a "
+                              "conversion to float32" % (
+                                  L, np.asarray(c["deform"]).dtype)))
             for feat in scal:
                 got = np.array(c[feat][:])
                 exp = np.array(P[feat][:])[sel]
